@@ -18,7 +18,14 @@ import (
 
 type Rng struct{ s uint64 }
 
-func NewRng(seed uint64) *Rng { return &Rng{s: seed*0x9E3779B97F4A7C15 + 0x1234567} }
+// NewRng hashes the seed first, so that seeds 1, 2, 3 give unrelated streams (with a plain
+// splitmix64 state, seed k would be seed 1's stream shifted by k-1 draws).
+func NewRng(seed uint64) *Rng {
+	z := seed + 0x632BE59BD9B4E019
+	z = (z ^ (z >> 30)) * 0xBF58476D1CE4E5B9
+	z = (z ^ (z >> 27)) * 0x94D049BB133111EB
+	return &Rng{s: z ^ (z >> 31)}
+}
 func (r *Rng) U64() uint64 {
 	r.s += 0x9E3779B97F4A7C15
 	z := r.s
@@ -129,6 +136,7 @@ type Out struct {
 	Violations []Violation
 	Extra      map[string]interface{}
 	Rule       string
+	vcount     map[string]int
 }
 
 // Init parses the common flags. scaleQuick/scaleThorough are the property's case-count scales.
@@ -179,6 +187,15 @@ func trunc(s string, n int) string {
 }
 
 func (o *Out) Violate(caseIdx int, kind, finding, detail string, input interface{}) {
+	// keep at most 40 per (kind, finding); count all of them
+	if o.vcount == nil {
+		o.vcount = map[string]int{}
+	}
+	key := kind + "|" + finding
+	o.vcount[key]++
+	if o.vcount[key] > 40 {
+		return
+	}
 	o.Violations = append(o.Violations, Violation{caseIdx, kind, finding, trunc(detail, 2000), input})
 }
 
@@ -249,6 +266,7 @@ func (o *Out) Finish(importLine, caseType, runFn string) {
 		"shards":              nshards,
 		"rule":                o.Rule,
 		"extra":               o.Extra,
+		"violation_counts":    o.vcount,
 	}
 	if o.Violations == nil {
 		res["violations"] = []Violation{}
